@@ -99,7 +99,7 @@ def run(ctx, factor):
                     if m[0] != "unsup" and m != b and not (m[0] == b[0] == "err"):
                         rep.disagree("T4-binary-route", case, b if b[0] != "ok" else b[1][:300], m if m[0] != "ok" else m[1][:300])
                 rep.case(case, b[0] == "ok" and bool(b[1]), tags=["sections=%d" % len(secs), "object-sections=%d" % len(names)])
-            if rep.violations and factor > 1:
+            if rep.has_new() and factor > 1:
                 return
         # executables linked at low and at very high addresses (no leading blanks before a 16-digit address)
         for k in range(ctx.budget(4, 40) * factor):
